@@ -115,8 +115,10 @@ def k1_cache_ids(res, tier):
         st.vm.f[ic_i] = Cell(caches)
         n0 = 2
         midv = z3.BitVec('module_id', 64)
-        e.add_constraint(z3.ULE(midv, n0))      # module ids are handed out consecutively: a new module gets the next index
-        mid = e.concretize(midv, [0, 1, 2])
+        # an existing module has its own index; a new module has an id at or BEYOND the number of caches: Vm::module hands out an id for
+        # every module it creates, also for one whose compile then fails and that never gets a cache
+        e.add_constraint(z3.ULE(midv, n0 + 1))
+        mid = e.concretize(midv, [0, 1, 2, 3])
         had = mid < n0
         pre = cache_lens(e, caches, mid) if had else [bv(0, 64), bv(0, 64)]
         for x in pre:
@@ -134,10 +136,12 @@ def k1_cache_ids(res, tier):
                     {'existing_cache': had})
         if succeeded:
             end = e.path_state['emitter_end']
-            post = cache_lens(e, caches2, mid)
-            e.check(z3.And(z3.UGE(post[0], end[0]), z3.UGE(post[1], end[1])), 'after a successful compile every id handed out is inside the module\'s cache')
-            e.check(z3.And(z3.UGE(post[0], pre[0]), z3.UGE(post[1], pre[1])), 'the ids of earlier compiles of the module stay inside its cache')
-            e.check(mid < len(caches2.cells), 'the module has a cache')
+            e.check(mid < len(caches2.cells), 'the module has a cache at the index of its id (ids skipped by modules that failed to compile included)',
+                    {'module_id': mid, 'caches': len(caches2.cells)})
+            if mid < len(caches2.cells):
+                post = cache_lens(e, caches2, mid)
+                e.check(z3.And(z3.UGE(post[0], end[0]), z3.UGE(post[1], end[1])), 'after a successful compile every id handed out is inside the module\'s cache')
+                e.check(z3.And(z3.UGE(post[0], pre[0]), z3.UGE(post[1], pre[1])), 'the ids of earlier compiles of the module stay inside its cache')
         else:
             e.check(len(caches2.cells) == n0, 'a failed compile adds no cache')
             if had:
@@ -152,6 +156,13 @@ def k1_cache_ids(res, tier):
     for fd in res.findings:
         if 'start where the ids of earlier compiles' in fd.key:
             fd.replay = F11_REPLAY
+        if 'has a cache at the index of its id' in fd.key:
+            fd.replay = F52_REPLAY
+
+
+F52_REPLAY = dict(kind='repl', stdin='import self.bad;\nimport self.good;\nprint(good.mk());\n',
+                  files={'bad.lay': 'let x = ;\n', 'good.lay': 'export class G { init() { self.v = 3; } get() { return self.v; } }\nexport fn mk() { let g = G(); return g.get() + g.v; }\n'},
+                  expect_stdout_re=r'(^|\n)6', bad_re='panicked|unsafe precondition', bad_exit=[101, 134, -6, -11])
 
 
 @obligation('C19.K2.unhandled_error_keeps_session', 'C19', programs=('vm',))
